@@ -122,7 +122,7 @@ func (iv *Value) ValueFrom(value any) {
 	case ItemTypeFloat:
 		switch vv := value.(type) {
 		case float64, float32:
-			iv.ItemValue = fmt.Sprintf("%f", vv)
+			iv.ItemValue = fmt.Sprintf("%v", vv)
 		case string:
 			_, err := strconv.ParseFloat(vv, 64)
 			if err != nil {
